@@ -13,7 +13,7 @@ from props.C07 import gen_sel, _py_sel
 
 REQUIRED_THEOREMS = ['Usid.C20.read_frame', 'Usid.C20.history_independent_reads', 'Usid.C20.write_refused',
                      'Usid.C20.ro_never_changes', 'Usid.C20.rw_write_changes', 'Usid.C20.table_functional']
-RULE = ('[also: every file holds a dataset that is a Main dataset but for the labels / units of one ancillary] [also: a TARGET group in another file - results group, process, empty dataset written to it and look-ups in it - under every combination of open modes of the source and target files] generator files (a Main dataset with 1-3 dimensions per side, its ancillaries, 0-2 groups of earlier results '
+RULE = ('[also: every file holds a results group whose source reference is stale] [also: every file holds a dataset that is a Main dataset but for the labels / units of one ancillary] [also: a TARGET group in another file - results group, process, empty dataset written to it and look-ups in it - under every combination of open modes of the source and target files] generator files (a Main dataset with 1-3 dimensions per side, its ancillaries, 0-2 groups of earlier results '
         'holding their own Main dataset, a decoy group, plain datasets) opened "r" and "r+"; random sequences (<= 8 '
         'quick, <= 20 thorough) of the 24 read-side operations with generated arguments; after EVERY operation the '
         'SHA-256 of the file on disk (read-only) and a canonical dump of every dataset and attribute through the open '
@@ -183,6 +183,13 @@ def _make_file(inp, path):
             gen.write_usid(rg, ds, name='Res')
         decoy = g.create_group('main-Fitting_000')
         decoy.attrs['p'] = 1
+        # a results group whose recorded source reference no longer resolves (the referenced object was deleted): the
+        # source is then recovered from the group's name - a look-up, which must not touch the stale attribute
+        sg = g.create_group('main-Old_000')
+        sg.attrs['tool'] = 'Old'
+        gone = g.create_dataset('gone', data=np.zeros(2))
+        sg.attrs['source_000'] = gone.ref
+        del g['gone']
         # a dataset that is a Main dataset in everything but the description of ONE of its ancillaries (labels and /
         # or units missing there, present on its sibling): recognising it must answer "not main" and touch nothing
         og = g.create_group('Older')
@@ -207,7 +214,10 @@ def _dump(f):
         for k in sorted(o.attrs.keys()):
             v = o.attrs[k]
             if isinstance(v, h5py.Reference):
-                a[k] = 'ref:' + (f[v].name if v else 'null')
+                try:
+                    a[k] = 'ref:' + (f[v].name if v else 'null')
+                except (KeyError, ValueError):
+                    a[k] = 'ref:stale'
             else:
                 arr = np.asarray(v)
                 a[k] = str(arr.dtype) + str(arr.shape) + hashlib.sha1(arr.tobytes()).hexdigest()[:12]
@@ -356,9 +366,10 @@ def _do(op, cx, inp):
         tgt = g['main-Fit_000'] if 'main-Fit_000' in g else g['main-Fitting_000']
         return bool(hu.check_for_matching_attrs(tgt, new_parms=op['parms']))
     if name == 'get_source_dataset':
+        stale = _dig(hu.get_source_dataset(g['main-Old_000']))
         if 'main-Fit_000' not in g:
-            return 'no-results'
-        return _dig(hu.get_source_dataset(g['main-Fit_000']))
+            return ['no-results', stale]
+        return [_dig(hu.get_source_dataset(g['main-Fit_000'])), stale]
     if name == 'get_n_dim_form':
         return _dig(u.get_n_dim_form(lazy=op['lazy'], as_scalar=op.get('as_scalar', False)))
     if name == 'reshape_to_n_dims':
